@@ -527,18 +527,14 @@ func (c *DnsCache) GetPackedResponseWithApproximateTTL(qname string, qtype uint1
 		currentTTL = 1
 	}
 
-	// Lock-free read: atomic pointer load (no mutex, no blocking)
+	// Lock-free read: atomic loads (no mutex, no blocking). The TTL is read
+	// before the pointer because writers store the pointer first: a TTL value
+	// is then never paired with bytes older than the ones it was packed with.
+	cachedTTL := c.packedResponseTTL.Load()
 	packedPtr := c.packedResponse.Load()
-	if packedPtr != nil && *packedPtr != nil {
+	if packedPtr != nil && *packedPtr != nil && packedTTLWithinThreshold(cachedTTL, currentTTL) {
 		// Use cached response if TTL difference is within threshold
-		cachedTTL := c.packedResponseTTL.Load()
-		if cachedTTL >= currentTTL {
-			if cachedTTL-currentTTL <= ttlRefreshThresholdSeconds {
-				return *packedPtr
-			}
-		} else if currentTTL-cachedTTL <= ttlRefreshThresholdSeconds {
-			return *packedPtr
-		}
+		return *packedPtr
 	}
 
 	// Slow path: refresh pre-packed response with new TTL
@@ -555,12 +551,23 @@ func (c *DnsCache) GetPackedResponseWithApproximateTTL(qname string, qtype uint1
 		}
 	}
 
-	// Return current response (might be slightly stale, but acceptable)
+	// Return current response (might be slightly stale, but acceptable). A lookup
+	// that lost the refresh race above, or found the refresh throttled, must not
+	// hand out bytes whose TTL is further off than the threshold: the caller
+	// builds the reply from the records instead.
+	cachedTTL = c.packedResponseTTL.Load()
 	packedPtr = c.packedResponse.Load()
-	if packedPtr == nil || *packedPtr == nil {
+	if packedPtr == nil || *packedPtr == nil || !packedTTLWithinThreshold(cachedTTL, currentTTL) {
 		return nil
 	}
 	return *packedPtr
+}
+
+func packedTTLWithinThreshold(cachedTTL, currentTTL uint32) bool {
+	if cachedTTL >= currentTTL {
+		return cachedTTL-currentTTL <= ttlRefreshThresholdSeconds
+	}
+	return currentTTL-cachedTTL <= ttlRefreshThresholdSeconds
 }
 
 // GetStaleResponse returns expired response if within stale-while-revalidate window.
